@@ -931,7 +931,7 @@ package router
 //@   aftercall mustHaveRespB?: gB = ret0
 //@   oncall writeResp?: nW = nW + 1
 //@   oncall go: nGo = nGo + 1
-//@   modifies *
+//@   modifies field(limiter.e), field(time.Time)
 //@   ensures [C15:refused-query-answered-refused-and-not-handled] nAsk == 1 && gAdm != nil ==> nW == 1 && nGo == 0
 //@   ensures [C15,C03:admitted-query-handled-once] nAsk == 1 && gAdm == nil ==> nW == 0 && nGo == 1
 //@   ensures nAsk <= 1 && (nAsk == 0 ==> nW == 0 && nGo == 0)
@@ -1089,6 +1089,28 @@ package router
 //@   callsite handleServerReq?: [C03:this-router] arg0 == h.r
 //@   callsite mustHaveRespB?: [C03,C09:fallback-answer-http-limit] arg2 == dnsmsg.RCodeRefused && arg3 == false && arg4 == 65535
 //@   callsite SetBody?: [C03:the-packed-response-is-the-body] arg1 == gB && len(arg1) >= 12
+
+// udpServer.startThreadOthers (portable read loop): every datagram read is handed to handleMsg once, as exactly
+// the bytes (and control bytes) that were read, with the address it came from; a read error with nothing read ends
+// the loop (an orderly shutdown when the server was closed).
+//@ func (s *udpServer) startThreadOthers(c *net.UDPConn) (err error)
+//@   props C01 C03
+//@   requires s != nil && routerReady(s.r) && udpOK(s) && c != nil
+//@   noterm
+//@   ghost gN int = 0
+//@   ghost gOobN int = 0
+//@   ghost gAddr netip.AddrPort = nil
+//@   ghost gErr error = nil
+//@   assumecall LocalAddr: typeIs(ret0, *net.UDPAddr) && ptrOf(ret0, net.UDPAddr) != nil
+//@   aftercall ReadMsgUDPAddrPort: gN = ret0
+//@   aftercall ReadMsgUDPAddrPort: gOobN = ret1
+//@   aftercall ReadMsgUDPAddrPort: gAddr = ret3
+//@   aftercall ReadMsgUDPAddrPort: gErr = ret4
+//@   modifies *
+//@   callsite handleMsg: [C03:exactly-the-datagram-that-was-read] arg0 == s && gErr == nil && sameSlice(arg1, b, 0, gN) && sameSlice(arg2, oob, 0, gOobN) && arg3 == gAddr && arg4 == listenerAddr
+//@   loop 1:
+//@     modifies *
+//@     invariant s != nil && routerReady(s.r) && udpOK(s) && c != nil && len(b) == 2048 && len(oob) == 512
 
 // tcpServer.run (accept loop, TCP and DoT): every accepted connection is charged - 15 for TLS, 3 for plain TCP -
 // to its remote address; a refused connection is closed and never handled.
